@@ -173,11 +173,10 @@ impl<K: Ord, V: Val<A> + Debug, A: Ord + Hash + Clone + Debug> CmRDT for Map<K, 
                 self.clock
                     .validate_op(dot)
                     .map_err(CmRDTValidation::SourceOrder)?;
+                // The entry clock only holds the dots of edits to this key, so it is
+                // not contiguous per actor and must not be used for the gap check;
+                // the map clock above already covers every dot of every entry.
                 let entry = self.entries.get(key).cloned().unwrap_or_default();
-                entry
-                    .clock
-                    .validate_op(dot)
-                    .map_err(CmRDTValidation::SourceOrder)?;
                 entry.val.validate_op(op).map_err(CmRDTValidation::Value)
             }
         }
